@@ -1,5 +1,5 @@
 """shared discovery helpers: panic-only error paths, `?` edges"""
-from facts import cn, callee, cname, roots, op_local, taint, arg_hits
+from facts import cn, callee, cname, roots, op_local, taint, arg_hits, base_ident
 
 
 def question_edges(f, call_block):
@@ -54,7 +54,7 @@ def panic_only_fns(db):
     P = set()
     for _ in range(3):
         for f in db.fns.values():
-            if f.id in P or not f.locals or "std::result::Result<" not in f.locals[0] or "JsError" not in f.locals[0]:
+            if f.id in P or not f.locals or base_ident(f.locals[0]) != "Result" or "JsError" not in f.locals[0]:
                 continue
             ok = True
             found = False
@@ -110,7 +110,7 @@ def panic_blocks(db, f):
 
 
 def is_coroutine(f):
-    return bool(f.locals) and f.locals[0].startswith("std::task::Poll<")
+    return bool(f.locals) and base_ident(f.locals[0]) == "Poll"
 
 
 def suspend_blocks(f):
